@@ -1,6 +1,7 @@
 import SC.Proofs.Sched
 import SC.Gen.SsaFacts
 import SC.Gen.CallGraph
+import SC.Proofs.SrcStatic
 /-!
 # C18 — pure, deterministic and safe for concurrent use; arguments never modified
 
@@ -66,4 +67,14 @@ theorem deterministic {M R : Type} (mem : M) (prog : Nat → List (M → R)) (s1
     (e1 e2 : Nat × Nat × R) (h1 : e1 ∈ Sched.run mem prog s1 pc1) (h2 : e2 ∈ Sched.run mem prog s2 pc2)
     (ht : e1.1 = e2.1) (hk : e1.2.1 = e2.2.1) : e1.2.2 = e2.2.2 :=
   Sched.run_deterministic mem prog s1 s2 pc1 pc2 e1 e2 h1 h2 ht hk
+/-- **Source level** (`Gen.Src.str` / `Gen.Src.byt`: the go/ssa form of `strcase.go` / `bytcase/bytcase.go`, regenerated instruction by
+    instruction on every run; the checker `GoSsa.Prog.sound` is a Lean function evaluated by the kernel over those literals): in every
+    function every `store` goes through a pointer into an array or variable the function allocated itself (address chased through
+    `indexAddr`, `slice`, φ), `utf8.EncodeRune` only ever receives such a local array, every call goes to a function of the same package or
+    to one of the read-only external functions the interpreter gives a meaning to, and no instruction lies outside the modelled subset
+    (no `go`, `defer`, map update, send, closure, dynamic call, `append`, `make`, … — the translator renders those as `.stuck`, which
+    `Fn.wf` rejects).  In the interpreter a store through any other pointer is `Res.stuck`, and strings / argument slices are immutable
+    values: the model cannot express a write to an argument or to a package-level table. -/
+theorem source_stores_local : GoSsa.Prog.sound Gen.Src.str = true ∧ GoSsa.Prog.sound Gen.Src.byt = true :=
+  ⟨GoSsa.str_sound, GoSsa.byt_sound⟩
 end C18
